@@ -8,8 +8,10 @@ import (
 	"os"
 	"path/filepath"
 	"reflect"
+	"runtime"
 	"strings"
 	"sync"
+	"sync/atomic"
 	"time"
 
 	"github.com/xelaj/mtproto/telegram"
@@ -104,7 +106,7 @@ func (e *Env) runMethods() error {
 	var expectBody, answer []byte
 	var gotBody []byte
 	var gotBodies [][]byte // every request body since the last reset (concurrent pass)
-	arrived := make(chan struct{}, 16)
+	arrived := make(chan struct{}, 64)
 	gen := func(seed uint64) *tlx.AGen { return &tlx.AGen{Sch: sch, S: &seedSrc{x: seed}, MaxDepth: 2} }
 	e.Srv.OnRequest = func(c *refsrv.Conn, r *refsrv.Request) {
 		// the client's start-up request: invokeWithLayer(layer, initConnection(..., help.getConfig)) -> config
@@ -139,7 +141,10 @@ func (e *Env) runMethods() error {
 		if ans != nil {
 			c.Send(refsrv.RpcResult(r.MsgID, ans), true)
 		}
-		arrived <- struct{}{}
+		select {
+		case arrived <- struct{}{}:
+		default: // nobody counts arrivals beyond the buffer; the handler never waits
+		}
 	}
 	client, err := telegram.NewClient(telegram.ClientConfig{SessionFile: e.SessionPath(), ServerHost: e.Srv.Addr(), PublicKeysFile: pemPath, AppID: 94575, AppHash: "a3406de8d171bb422bb6ddf3bbd800e2", InitWarnChannel: true})
 	if err != nil {
@@ -488,18 +493,25 @@ func (e *Env) runMethods() error {
 		for len(arrived) > 0 {
 			<-arrived
 		}
+		// every goroutine calls three times in a row, all released by a flag they poll: two dozen calls overlapping, also
+		// on a machine that is busy with other things
+		const R = 3
 		var wg sync.WaitGroup
-		start := make(chan struct{})
+		var start atomic.Bool
 		for k := range calls {
 			wg.Add(1)
 			go func(args []reflect.Value) {
 				defer wg.Done()
 				defer func() { recover() }()
-				<-start
-				m.Call(args)
+				for !start.Load() {
+					runtime.Gosched()
+				}
+				for r := 0; r < R; r++ {
+					m.Call(args)
+				}
 			}(calls[k])
 		}
-		close(start)
+		start.Store(true)
 		done := make(chan struct{})
 		go func() { wg.Wait(); close(done) }()
 		select {
@@ -514,7 +526,7 @@ func (e *Env) runMethods() error {
 		mu.Unlock()
 		left := map[string]int{}
 		for _, w := range wants {
-			left[string(w)]++
+			left[string(w)] += R
 		}
 		mr.OK = true
 		for _, g := range got {
@@ -526,7 +538,7 @@ func (e *Env) runMethods() error {
 			mr.Msg = fmt.Sprintf("%d calls of the method at the same time, each with its own arguments: the server received a request (%d bytes) that is the schema serialisation of none of the calls' arguments (nearest: %s)", K, len(g), describeDiff(g, nearest(g, wants)))
 			break
 		}
-		if mr.OK && len(got) != K {
+		if mr.OK && len(got) != K*R {
 			mr.OK = false
 			mr.Msg = fmt.Sprintf("%d calls of the method at the same time: the server received %d requests", K, len(got))
 		}
